@@ -5,15 +5,25 @@ for every cell and node a parent among the strictly older nodes (or none), and a
 subset of nodes flagged as samples.  Enumeration is complete for the given bounds.
 """
 import itertools
+import math
 
 TIMESCALES = {
     "int": lambda r: float(r),
     "quarter": lambda r: r / 4.0,
     "big": lambda r: r * 1e6 - 5e5,
+    # values that a narrower or sloppier number type cannot tell apart: consecutive doubles, magnitudes
+    # beyond float32, denormals
+    "ulp": lambda r: 1.0 + r * 2.0 ** -52,
+    "huge": lambda r: r * 1e300,
+    "tiny": lambda r: r * 5e-324,
 }
+_ULP_A = math.nextafter(0.25, 1.0)
 GRIDS = {
     "int": lambda G: tuple(float(i) for i in range(G + 1)),
     "frac": lambda G: tuple([0.0, 0.5, 2.25, 2.5, 4.0][: G + 1]),
+    # a cell exactly one ulp wide (coordinates that differ only in the last bit of a double)
+    # (the left end has an odd mantissa, so that (a + b) / 2 rounds to the RIGHT end b)
+    "ulp": lambda G: tuple([0.0, _ULP_A, math.nextafter(_ULP_A, 1.0), 1.0, 2.0][: G + 1]),
 }
 
 
